@@ -110,6 +110,8 @@ pub enum Auth<'a> {
     /// like `By`, but the last argument-bearing position of the signed root invocation is
     /// altered (the principal authorised a *different* call)
     Altered(&'a [Address]),
+    /// like `By`, but only the demanded invocations whose root function has this name are signed
+    Only(&'a [Address], &'a str),
     /// recording mode (setup only, never used for a verdict)
     Setup,
 }
@@ -427,6 +429,7 @@ impl World {
         who: &[Address],
         recorded: &[(ScAddress, SorobanAuthorizedInvocation)],
         mode: u8,
+        only_fn: Option<&str>,
     ) -> Vec<SorobanAuthorizationEntry> {
         let mut out = vec![];
         for w in who {
@@ -434,6 +437,15 @@ impl World {
             for (addr, inv) in recorded {
                 if *addr != sc {
                     continue;
+                }
+                if let Some(f) = only_fn {
+                    let name = match &inv.function {
+                        SorobanAuthorizedFunction::ContractFn(a) => a.function_name.to_utf8_string_lossy(),
+                        _ => String::new(),
+                    };
+                    if name != f {
+                        continue;
+                    }
                 }
                 let mut inv = inv.clone();
                 match mode {
@@ -486,7 +498,7 @@ impl World {
                 self.env.set_auths(&[]);
                 c
             }
-            Auth::By(who) | Auth::RootOnly(who) | Auth::Altered(who) => {
+            Auth::By(who) | Auth::RootOnly(who) | Auth::Altered(who) | Auth::Only(who, _) => {
                 if who.is_empty() {
                     self.env.set_auths(&[]);
                     return self.raw_call(contract, func, args);
@@ -496,8 +508,12 @@ impl World {
                     Auth::Altered(_) => 2,
                     _ => 0,
                 };
+                let only = match auth {
+                    Auth::Only(_, f) => Some(f),
+                    _ => None,
+                };
                 let rec = self.record_auth(contract, func, args);
-                let entries = self.entries_for(who, &rec, mode);
+                let entries = self.entries_for(who, &rec, mode, only);
                 self.env.set_auths(&entries);
                 let c = self.raw_call(contract, func, args);
                 self.env.set_auths(&[]);
